@@ -1,6 +1,7 @@
 import ApdVerif.Model.Dispatch
 import ApdVerif.Spec.Specials
 import ApdVerif.Spec.Defs
+import ApdVerif.Lemmas.C08Lemmas
 /-!
 # C08 — special values follow the decimal arithmetic rules in every operation
 
@@ -10,7 +11,7 @@ pair for which the table prescribes a result, the model is defined and its deliv
 prescribed form, sign and conditions.
 -/
 namespace Apd.Props
-open Apd Apd.Spec
+open Apd Apd.Spec Apd.C08L
 
 def allOps : List String :=
   ["add", "sub", "mul", "quo", "quoint", "rem", "abs", "neg", "round", "reduce", "cmp", "quantize",
@@ -19,21 +20,166 @@ def allOps : List String :=
 /-- the model decides every case the table prescribes -/
 theorem C08_defined (op : String) (hop : op ∈ allOps) (c : Ctx) (x y : Dec) (i : Int) (e : Expect)
     (h : specials op x y = some e) : (runCtxOp op c x y i).isSome = true := by
-  sorry
+  simp only [allOps, List.mem_cons, List.not_mem_nil, or_false] at hop
+  rcases hop with rfl | rfl | rfl | rfl | rfl | rfl | rfl | rfl | rfl | rfl | rfl | rfl | rfl | rfl | rfl | rfl |
+    rfl | rfl | rfl | rfl | rfl | rfl
+  case _ => simp [runCtxOp]  -- add
+  case _ => simp [runCtxOp]  -- sub
+  case _ => simp [runCtxOp]  -- mul
+  case _ => simp [runCtxOp]  -- quo
+  case _ => simp [runCtxOp]  -- quoint
+  case _ => simp [runCtxOp]  -- rem
+  case _ => simp [runCtxOp]  -- abs
+  case _ => simp [runCtxOp]  -- neg
+  case _ => simp [runCtxOp]  -- round
+  case _ => simp [runCtxOp]  -- reduce
+  case _ => simp [runCtxOp]  -- cmp
+  case _ => simp [runCtxOp]  -- quantize
+  case _ => simp [runCtxOp]  -- rtie
+  case _ => simp [runCtxOp]  -- rtiv
+  case _ => simp [runCtxOp]  -- ceil
+  case _ => simp [runCtxOp]  -- floor
+  case _ => simp [runCtxOp]  -- sqrt
+  case _ => obtain ⟨o, h1, _⟩ := C08_cbrt c x y e h; simp [runCtxOp, h1]
+  case _ => obtain ⟨o, h1, _⟩ := C08_exp c x y e h; simp [runCtxOp, h1]
+  case _ => obtain ⟨o, h1, _⟩ := C08_log c x y e true (by simpa using h); simp [runCtxOp, h1]
+  case _ => obtain ⟨o, h1, _⟩ := C08_log c x y e false (by simpa using h); simp [runCtxOp, h1]
+  case _ => obtain ⟨o, h1, _⟩ := C08_pow c x y e h; simp [runCtxOp, h1]
+
+/- ORIGINAL STATEMENT (false as stated, see the counterexamples below):
 
 /-- … and decides it as prescribed: result form, sign, and InvalidOperation / DivisionByZero /
 DivisionUndefined exactly as the table says, no Inexact/Overflow/Underflow/DivisionImpossible.
 (`prec = 0` makes Quo/QuoInteger/Exp return the zero-precision error first: excluded by `hd`.) -/
 theorem C08_specials (op : String) (hop : op ∈ allOps) (c : Ctx) (x y : Dec) (i : Int) (e : Expect) (o : Out)
     (h : specials op x y = some e) (ho : runCtxOp op c x y i = some o)
-    (hd : o.err = .none ∨ o.err = .trap) : e.meets o.d o.fl = true := by
-  sorry
+    (hd : o.err = .none ∨ o.err = .trap) : e.meets o.d o.fl = true
+
+`Abs`, `Neg`, `Round` and `Reduce` send an infinite operand through `Context.round`
+(`Rounder.Round` → `setExponent`), which looks at the operand's `Exponent` and `Coeff` fields without
+looking at its `Form`.  An `Infinite` operand whose exponent field exceeds `c.emax` (or, for a
+context with `emax < 0`, even the canonical infinity with exponent 0) is therefore "rounded" to an
+infinity with Overflow|Inexact raised; one with a long non-zero coefficient gets Inexact|Rounded.
+The statement quantifies over all `x : Dec` and all `c : Ctx` with no well-formedness hypothesis, so
+these operands are counterexamples.  All other cells of the table hold unconditionally. -/
+
+/-- counterexample 1: `Abs(Infinity)` with an exponent field of 50 under `emax = 10` raises Overflow|Inexact -/
+def cexCtx : Ctx := { prec := 5, emax := 10, emin := -10 }
+def cexInf : Dec := { form := .infinite, exp := 50 }
+example : runCtxOp "abs" cexCtx cexInf {} 0 = some (absOp cexCtx cexInf) := by decide
+example : (absOp cexCtx cexInf).err = .none := by decide
+example : ((absOp cexCtx cexInf).fl.overflow, (absOp cexCtx cexInf).fl.inexact) = (true, true) := by decide
+example : (specials "abs" cexInf {}).map (fun e => e.meets (absOp cexCtx cexInf).d (absOp cexCtx cexInf).fl)
+    = some false := by decide
+/-- counterexample 2: the canonical `-Infinity` (coefficient 0, exponent 0) under a context with `emax = -5` -/
+def cexCtx2 : Ctx := { prec := 3, emax := -5, emin := -10 }
+def cexInf2 : Dec := { form := .infinite, neg := true }
+example : (negOp cexCtx2 cexInf2).err = .none := by decide
+example : (specials "neg" cexInf2 {}).map (fun e => e.meets (negOp cexCtx2 cexInf2).d (negOp cexCtx2 cexInf2).fl)
+    = some false := by decide
+/-- counterexample 3: an infinity with a six-digit coefficient field under precision 5 raises Inexact|Rounded -/
+def cexInf3 : Dec := { form := .infinite, coeff := 123456 }
+example : (roundOp cexCtx cexInf3).err = .none := by decide
+example : (specials "round" cexInf3 {}).map (fun e => e.meets (roundOp cexCtx cexInf3).d (roundOp cexCtx cexInf3).fl)
+    = some false := by decide
+
+/-- the operations that pass an infinite operand through `Context.round` -/
+def roundsInf : List String := ["abs", "neg", "round", "reduce"]
+
+/-- … and decides it as prescribed: result form, sign, and InvalidOperation / DivisionByZero /
+DivisionUndefined exactly as the table says, no Inexact/Overflow/Underflow/DivisionImpossible.
+Strongest true variant of `C08_specials`: for `Abs`/`Neg`/`Round`/`Reduce` an infinite operand must
+have coefficient field 0 and an exponent field not above `emax` (`InfOK`; every infinity the package
+produces has both fields 0).  Every other operation, and every other operand class, is unrestricted. -/
+theorem C08_specials_partial (op : String) (hop : op ∈ allOps) (c : Ctx) (x y : Dec) (i : Int) (e : Expect) (o : Out)
+    (h : specials op x y = some e) (ho : runCtxOp op c x y i = some o)
+    (hd : o.err = .none ∨ o.err = .trap)
+    (hinf : op ∈ roundsInf → x.form = .infinite → x.coeff = 0 ∧ x.exp ≤ c.emax) :
+    e.meets o.d o.fl = true := by
+  simp only [allOps, List.mem_cons, List.not_mem_nil, or_false] at hop
+  rcases hop with rfl | rfl | rfl | rfl | rfl | rfl | rfl | rfl | rfl | rfl | rfl | rfl | rfl | rfl | rfl | rfl |
+    rfl | rfl | rfl | rfl | rfl | rfl
+  case _ => simp [runCtxOp] at ho; subst ho; exact C08_addsub c x y e false (by simpa using h)
+  case _ => simp [runCtxOp] at ho; subst ho; exact C08_addsub c x y e true (by simpa using h)
+  case _ => simp [runCtxOp] at ho; subst ho; exact C08_mul c x y e h
+  case _ => simp [runCtxOp] at ho; subst ho; exact C08_quo c x y e h
+  case _ => simp [runCtxOp] at ho; subst ho; exact C08_quoint c x y e h
+  case _ => simp [runCtxOp] at ho; subst ho; exact C08_rem c x y e h
+  case _ => simp [runCtxOp] at ho; subst ho; exact C08_abs c x y e h hd (hinf (by decide))
+  case _ => simp [runCtxOp] at ho; subst ho; exact C08_neg c x y e h hd (hinf (by decide))
+  case _ => simp [runCtxOp] at ho; subst ho; exact C08_round c x y e h hd (hinf (by decide))
+  case _ => simp [runCtxOp] at ho; subst ho; exact C08_reduce c x y e h hd (hinf (by decide))
+  case _ => simp [runCtxOp] at ho; subst ho; exact C08_cmp c x y e h
+  case _ => simp [runCtxOp] at ho; subst ho; exact C08_quantize c x y i e h
+  case _ => simp [runCtxOp] at ho; subst ho; exact C08_rtie c x y e h
+  case _ => simp [runCtxOp] at ho; subst ho; exact C08_rtiv c x y e h
+  case _ => simp [runCtxOp] at ho; subst ho; exact C08_ceil c x y e h
+  case _ => simp [runCtxOp] at ho; subst ho; exact C08_floor c x y e h
+  case _ => simp [runCtxOp] at ho; subst ho; exact C08_sqrt c x y e h hd
+  case _ =>
+    obtain ⟨o', h1, h2⟩ := C08_cbrt c x y e h
+    simp [runCtxOp, h1] at ho; subst ho; exact h2 hd
+  case _ =>
+    obtain ⟨o', h1, h2⟩ := C08_exp c x y e h
+    simp [runCtxOp, h1] at ho; subst ho; exact h2
+  case _ =>
+    obtain ⟨o', h1, h2⟩ := C08_log c x y e true (by simpa using h)
+    simp [runCtxOp, h1] at ho; subst ho; exact h2
+  case _ =>
+    obtain ⟨o', h1, h2⟩ := C08_log c x y e false (by simpa using h)
+    simp [runCtxOp, h1] at ho; subst ho; exact h2
+  case _ =>
+    obtain ⟨o', h1, h2⟩ := C08_pow c x y e h
+    simp [runCtxOp, h1] at ho; subst ho; exact h2
+
+/-- corollary: the original statement holds as soon as `0 ≤ emax` and infinite operands are the
+canonical ones (coefficient and exponent fields 0) — in particular for every `Ctx.WF`/`Ctx.WF0` context -/
+theorem C08_specials_canonical (op : String) (hop : op ∈ allOps) (c : Ctx) (x y : Dec) (i : Int) (e : Expect) (o : Out)
+    (h : specials op x y = some e) (ho : runCtxOp op c x y i = some o)
+    (hd : o.err = .none ∨ o.err = .trap)
+    (hemax : 0 ≤ c.emax) (hx : x.form = .infinite → x.coeff = 0 ∧ x.exp = 0) :
+    e.meets o.d o.fl = true :=
+  C08_specials_partial op hop c x y i e o h ho hd (fun _ hf => ⟨(hx hf).1, by rw [(hx hf).2]; exact hemax⟩)
 
 /-- a signalling NaN operand always raises InvalidOperation and yields a quiet NaN -/
 theorem C08_snan (op : String) (hop : op ∈ allOps) (c : Ctx) (x y : Dec) (i : Int) (o : Out)
     (hx : x.form = .nanSignaling) (ho : runCtxOp op c x y i = some o) :
     o.d.form = .nan ∧ o.fl.invalidOp = true ∧ o.err = goError c.traps Cond.cInvalidOp := by
-  sorry
+  obtain ⟨xf, xn, xe, xc⟩ := x
+  simp only at hx; subst hx
+  simp only [allOps, List.mem_cons, List.not_mem_nil, or_false] at hop
+  rcases hop with rfl | rfl | rfl | rfl | rfl | rfl | rfl | rfl | rfl | rfl | rfl | rfl | rfl | rfl | rfl | rfl |
+    rfl | rfl | rfl | rfl | rfl | rfl
+  all_goals
+    simp [runCtxOp, addOp, mulOp, quoOp, quoIntegerOp, quoSpecials, remOp, absOp, negOp, roundOp, reduceOp, cmpOp,
+      quantizeOp, roundToIntegralExactOp, roundToIntegralValueOp, ceilOp, floorOp, toIntegralSpecials, sqrtOp, cbrtOp,
+      rootSpecials, expSpecials, logSpecials, powSpecials, shouldSetAsNaN, setAsNaN, Dec.isNaN] at ho
+    subst ho
+    simp [Cond.cInvalidOp]
+
+theorem upscale_cases (x y : Dec) :
+    upscale x y = none ∨ ∃ s, upscale x y =
+      some (x.coeff * 10 ^ (x.exp - min x.exp y.exp).toNat, y.coeff * 10 ^ (y.exp - min x.exp y.exp).toNat, s) := by
+  unfold upscale
+  by_cases h1 : x.exp = y.exp
+  · right; refine ⟨x.exp, ?_⟩
+    have hm : min x.exp y.exp = x.exp := by omega
+    simp [h1]
+  · by_cases h2 : x.exp < y.exp
+    · have hm : min x.exp y.exp = x.exp := by omega
+      have hb : (x.exp == y.exp) = false := by simpa using h1
+      simp only [hb, h2, hm, if_true, Bool.false_eq_true, if_false, Int.sub_self, Int.toNat_zero, Nat.pow_zero,
+        Nat.mul_one]
+      split_ifs
+      · left; rfl
+      · right; exact ⟨_, rfl⟩
+    · have hm : min x.exp y.exp = y.exp := by omega
+      have hb : (x.exp == y.exp) = false := by simpa using h1
+      simp only [hb, h2, hm, Bool.false_eq_true, if_false, Int.sub_self, Int.toNat_zero, Nat.pow_zero,
+        Nat.mul_one]
+      split_ifs
+      · left; rfl
+      · right; exact ⟨_, rfl⟩
 
 /-- the sign of an exact zero sum: +0, except under RoundFloor (and except when both operands
 are negative zeros / have the same sign) — on the model directly -/
@@ -41,9 +187,30 @@ theorem C08_zero_sum_sign (c : Ctx) (hc : c.WF) (x y : Dec) (hx : x.form = .fini
     (hn : x.neg ≠ y.neg) (hv : x.coeff * 10 ^ (x.exp - min x.exp y.exp).toNat = y.coeff * 10 ^ (y.exp - min x.exp y.exp).toNat)
     (hd : Delivered (addOp c x y false).err) :
     (addOp c x y false).d.coeff = 0 ∧ (addOp c x y false).d.neg = (c.mode == .floor) := by
-  sorry
+  have hnan : shouldSetAsNaN x (some y) = false := by simp [shouldSetAsNaN, Dec.isNaN, hx, hy]
+  have hne : (x.neg == y.neg) = false := by simpa using hn
+  rcases upscale_cases x y with hu | ⟨s, hu⟩
+  · have hE : addOp c x y false = failWith .sys := by
+      unfold addOp
+      simp [hnan, hx, hy, hu]
+    rw [hE] at hd
+    simp [Delivered, failWith] at hd
+  · have hE : addOp c x y false =
+        finish c (ctxRound c { form := .finite, neg := (c.mode == .floor), exp := s, coeff := 0 }) := by
+      unfold addOp
+      simp [hnan, hx, hy, hu, hv, hn]
+    rw [hE] at hd ⊢
+    obtain ⟨a1, a2, a3, a4⟩ := ctxRound_coeff0 c { form := .finite, neg := (c.mode == .floor), exp := s, coeff := 0 } rfl
+      (finish_noSys c _ hd) (Or.inl rfl)
+    exact ⟨a2, a3⟩
 
 example : ((specials "pow" { coeff := 2 } { form := .infinite }).map (·.form)) = some .infinite := by decide
 example : (mulOp {} { coeff := 0 } { form := .infinite }).fl.invalidOp = true := by decide
+
+#print axioms C08_defined
+#print axioms C08_specials_partial
+#print axioms C08_specials_canonical
+#print axioms C08_snan
+#print axioms C08_zero_sum_sign
 
 end Apd.Props
